@@ -1,10 +1,153 @@
-import ZixModel.Model.BTree
-/-! # C01 — B-tree is a sorted set under every operation history -/
+import ZixModel.Lemmas.BTreeDefs
+import ZixModel.Lemmas.BTreeInsert
+import ZixModel.Generated.BTreeCfg
+/-! # C01 — B-tree is a sorted set under every operation history (construction, insert, find,
+height, clear; removal is in `Properties/C01Remove.lean`)
+
+Property theorems only; helper lemmas live in `ZixModel/Lemmas/BTreeInsert.lean`.
+`fails : Nat → Bool` is an ARBITRARY allocation-failure oracle over the request index. -/
 namespace Zix.C01
 open Zix.BTree
 
-/-- `ainsert` places the element at the index and keeps everything else in order. -/
-theorem ainsert_length (l : List Nat) (i x : Nat) (h : i ≤ l.length) : (ainsert l i x).length = l.length + 1 := by
-  unfold ainsert; simp; omega
+/-- A new tree (when both pages could be allocated) is a well-formed empty set. -/
+theorem wf_new (c : Cfg) (fails : Nat → Bool) (a a' : AllocSt) (t : Tree) (evs : List Ev)
+    (h : Tree.new fails a = (a', some t, evs)) : WF c t ∧ t.root.elems = [] := by
+  unfold Tree.new allocPage at h
+  by_cases h1 : fails a.reqs = true
+  · simp [h1] at h
+  · by_cases h2 : fails (a.reqs + 1) = true
+    · simp [h1, h2] at h
+    · simp only [h1, h2, Bool.false_eq_true, if_false, Prod.mk.injEq, Option.some.injEq] at h
+      obtain ⟨_, rfl, _⟩ := h
+      exact ⟨⟨Ins.shape_leaf.mpr ⟨rfl, Nat.zero_le _, Or.inl rfl⟩, by simp, by simp⟩, by simp⟩
+
+/-- `zix_btree_insert` refines sorted-set insertion, for every well-formed tree, every element and
+every allocation-failure oracle: the result is well formed; SUCCESS means the element was absent and
+is now present (everything else untouched); EXISTS means it was present and the contents are
+unchanged (the shape may have been split on the way down); NO_MEM happens only if the oracle
+refused a request made by this call, and leaves the contents unchanged. -/
+theorem insert_refines (c : Cfg) (hc : c.Valid) (fails : Nat → Bool) (a : AllocSt) (t : Tree) (e : Nat)
+    (h : WF c t) :
+    WF c (t.insert c fails a e).2.1 ∧
+    ((t.insert c fails a e).2.2.1 = .success →
+        e ∉ t.root.elems ∧ (t.insert c fails a e).2.1.root.elems = setInsert e t.root.elems ∧
+        (t.insert c fails a e).2.1.size = t.size + 1) ∧
+    ((t.insert c fails a e).2.2.1 = .exists_ →
+        e ∈ t.root.elems ∧ (t.insert c fails a e).2.1.root.elems = t.root.elems ∧
+        (t.insert c fails a e).2.1.size = t.size) ∧
+    ((t.insert c fails a e).2.2.1 = .noMem →
+        (t.insert c fails a e).2.1.root.elems = t.root.elems ∧ (t.insert c fails a e).2.1.size = t.size ∧
+        ∃ k, a.reqs ≤ k ∧ k < (t.insert c fails a e).1.reqs ∧ fails k = true) ∧
+    (t.insert c fails a e).2.2.1 ≠ .notFound := by
+  obtain ⟨H, ⟨hsh, hreq, hsucc, hex, hnm, hnf⟩, hsize⟩ := Ins.tree_insert_spec c hc fails a t e h
+  have hheight := Ins.height_eq c H true _ hsh
+  have hsorted : (t.insert c fails a e).2.1.root.elems.Pairwise (· < ·) := by
+    cases hst : (t.insert c fails a e).2.2.1 with
+    | success => rw [(hsucc hst).2]; exact Ins.setInsert_sorted e _ h.sorted
+    | exists_ => rw [(hex hst).2]; exact h.sorted
+    | notFound => exact absurd hst hnf
+    | noMem => rw [(hnm hst).1]; exact h.sorted
+  refine ⟨⟨hheight ▸ hsh, hsorted, ?_⟩, ?_, ?_, ?_, hnf⟩
+  · rw [hsize]
+    cases hst : (t.insert c fails a e).2.2.1 with
+    | success =>
+      rw [(hsucc hst).2, Ins.setInsert_length e _ (hsucc hst).1, h.size]; simp
+    | exists_ => rw [(hex hst).2, h.size]; simp
+    | notFound => exact absurd hst hnf
+    | noMem => rw [(hnm hst).1, h.size]; simp
+  · intro hst
+    exact ⟨(hsucc hst).1, (hsucc hst).2, by rw [hsize, hst]; simp⟩
+  · intro hst
+    exact ⟨(hex hst).1, (hex hst).2, by rw [hsize, hst]; simp⟩
+  · intro hst
+    exact ⟨(hnm hst).1, by rw [hsize, hst]; simp, (hnm hst).2⟩
+
+/-- With memory available, insert succeeds exactly when the element is absent. -/
+theorem insert_success_iff_absent (c : Cfg) (hc : c.Valid) (fails : Nat → Bool) (a : AllocSt) (t : Tree) (e : Nat)
+    (h : WF c t) (hok : ∀ k, fails k = false) :
+    ((t.insert c fails a e).2.2.1 = .success ↔ e ∉ t.root.elems) ∧
+    ((t.insert c fails a e).2.2.1 = .exists_ ↔ e ∈ t.root.elems) := by
+  obtain ⟨H, ⟨_, _, hsucc, hex, hnm, hnf⟩, _⟩ := Ins.tree_insert_spec c hc fails a t e h
+  cases hst : (t.insert c fails a e).2.2.1 with
+  | success => simpa using (hsucc hst).1
+  | exists_ => simpa using (hex hst).1
+  | notFound => exact absurd hst hnf
+  | noMem =>
+    obtain ⟨_, k, _, _, hk⟩ := hnm hst
+    rw [hok k] at hk
+    exact absurd hk (by simp)
+
+/-- `zix_btree_find` succeeds exactly for stored elements and its iterator dereferences to the element. -/
+theorem find_refines (c : Cfg) (t : Tree) (e : Nat) (h : WF c t) :
+    ((t.find e).1.isSome ↔ e ∈ t.root.elems) ∧
+    (∀ p, (t.find e).1 = some p → deref t.root (some p) = some e) := by
+  have hspec := Ins.findNode_spec c (height t.root) t.root e true (height t.root) h.shape
+    (Nat.le_refl _) h.sorted
+  refine ⟨hspec.1, ?_⟩
+  intro p hp
+  obtain ⟨m, i, hm, hi⟩ := hspec.2 p hp
+  simp [deref, hm, hi]
+
+/-- A tree of height h ≥ 2 whose non-root nodes are at least minimally filled holds at least
+`2·(inodeMin+1)^(h−2)·(leafMin+1) − 1` elements. -/
+theorem btree_height_bound (c : Cfg) (hc : c.Valid) (t : Tree) (h : WF c t) (h2 : 2 ≤ height t.root) :
+    c.minElems (height t.root) ≤ t.size := by
+  have _ := hc  -- not needed: the count only uses the shape
+  rw [h.size]
+  exact Ins.min_elems_root c (height t.root) t.root h.shape h2
+
+/-- Hence no element is deeper than `maxHeight` levels as long as the tree holds fewer elements than
+the minimum a tree of height `maxHeight + 1` needs. -/
+theorem btree_depth_le_maxHeight (c : Cfg) (hc : c.Valid) (t : Tree) (h : WF c t)
+    (hs : t.size < c.minElems (c.maxHeight + 1)) : height t.root ≤ c.maxHeight := by
+  apply Classical.byContradiction
+  intro hgt
+  have hmh := hc.height
+  have h2 : 2 ≤ height t.root := by omega
+  have hb := btree_height_bound c hc t h h2
+  have hm := Ins.minElems_mono c (a := c.maxHeight + 1) (b := height t.root) (by omega)
+  omega
+
+/-- The bound claimed originally (`2^47`) does NOT hold for the regenerated geometry:
+`minElems 7 = 2·128^5·255 − 1 = 2^44 − 2^36 − 1 = 17523466567679`, which is just below `2^44`
+(so it is not even "more 8-byte elements than 2^47 bytes hold" = `2^44`). -/
+theorem default_cfg_capacity_original_false :
+    ¬ 2 ^ 47 ≤ Zix.Generated.btreeDefaultCfg.minElems (Zix.Generated.btreeDefaultCfg.maxHeight + 1) := by
+  decide
+
+/-- For the default build (regenerated geometry: 4 KiB pages, height 6) that bound is beyond 2^43
+elements (and below 2^44): at 8 bytes per element that is more than 2^46 bytes of element data
+alone.
+CORRECTED (the constant `2 ^ 47` was false, see `default_cfg_capacity_original_false`). -/
+-- ORIGINAL:
+-- theorem default_cfg_valid_and_capacity :
+--     Zix.Generated.btreeDefaultCfg.Valid ∧
+--     2 ^ 47 ≤ Zix.Generated.btreeDefaultCfg.minElems (Zix.Generated.btreeDefaultCfg.maxHeight + 1)
+theorem default_cfg_valid_and_capacity :
+    Zix.Generated.btreeDefaultCfg.Valid ∧
+    2 ^ 43 ≤ Zix.Generated.btreeDefaultCfg.minElems (Zix.Generated.btreeDefaultCfg.maxHeight + 1) := by
+  refine ⟨⟨by decide, by decide, by decide⟩, by decide⟩
+
+/-- The corrected bound is tight to within a factor of two. -/
+theorem default_cfg_capacity_lt :
+    Zix.Generated.btreeDefaultCfg.minElems (Zix.Generated.btreeDefaultCfg.maxHeight + 1) < 2 ^ 44 := by
+  decide
+
+/-- Lookups cost O(log n) comparisons: at most ⌊log2 leafMax⌋+1 per level. -/
+theorem find_comparisons (c : Cfg) (hc : c.Valid) (t : Tree) (e : Nat) (h : WF c t) :
+    (t.find e).2 ≤ height t.root * (Nat.log2 c.leafMax + 1) :=
+  Ins.findNode_cmps c hc (height t.root) t.root e true (height t.root) h.shape
+
+/-- `zix_btree_clear` hands every stored element to the destroy function exactly once and leaves a
+well-formed empty tree. -/
+theorem clear_destroys_each_once (c : Cfg) (t : Tree) (h : WF c t) :
+    (t.clear).2.1.Perm t.root.elems ∧ WF c (t.clear).1 ∧ (t.clear).1.root.elems = [] := by
+  have hp := Ins.destroyOrder_perm c (height t.root + 1) t.root true (height t.root) h.shape
+    (Nat.le_succ _)
+  refine ⟨hp, ⟨Ins.shape_leaf.mpr ⟨rfl, Nat.zero_le _, Or.inl rfl⟩, ?_, ?_⟩, ?_⟩ <;>
+    simp [Tree.clear]
+
+/-! ## non-vacuity: page 64 (6 values per leaf, 3 per internal node) -/
+example : (⟨6, 3, 6⟩ : Cfg).Valid := ⟨by decide, by decide, by decide⟩
 
 end Zix.C01
